@@ -345,7 +345,9 @@ func udecRun(g *forwarder.Gtp5g, k *forwarder.SimKernel, h *udecHandler, c udecC
 	for _, r := range c.Reports {
 		attrs = append(attrs, r.Attr())
 	}
-	k.ReportHook = func(*forwarder.SimRequest, forwarder.SimOccasion, []forwarder.SimOID) []forwarder.SimReport { return c.Reports }
+	k.ReportHook = func(*forwarder.SimRequest, forwarder.SimOccasion, []forwarder.SimOID) []forwarder.SimReport {
+		return c.Reports
+	}
 	plain := func(rs []report.USAReport, err error) {
 		if err != nil {
 			o.Err = err.Error()
